@@ -66,6 +66,7 @@ pub struct St {
     pub nrel: Vec<VC>,
     pub chan: Vec<VecDeque<(u64, VC)>>,
     pub rx_alive: Vec<bool>,
+    pub rx_forgotten: Vec<bool>,
     pub handle: Vec<Option<u8>>,
     pub arc_cnt: Vec<u32>,
     pub arc_drops: Vec<u32>,
@@ -125,6 +126,7 @@ impl St {
             nrel: vec![[0; MAXT]; o.notifies],
             chan: vec![VecDeque::new(); o.chans],
             rx_alive: vec![true; o.chans],
+            rx_forgotten: vec![false; o.chans],
             handle: vec![None; o.handles],
             arc_cnt: vec![0; o.arcs.len()],
             arc_drops: vec![0; o.arcs.len()],
@@ -487,6 +489,10 @@ impl St {
                 s.rx_alive[ch] = false;
                 fin!(s, Res::U)
             }
+            K::ForgetRx { ch } => {
+                s.rx_forgotten[ch] = true;
+                fin!(s, Res::U)
+            }
             K::ArcNew { h, arc } => {
                 s.handle[h] = Some(arc as u8);
                 s.arc_cnt[arc] = 1;
@@ -652,8 +658,9 @@ impl St {
             l.insert("Allocation".to_string());
         }
         for (c, q) in self.chan.iter().enumerate() {
-            // a live receiver is dropped (and drained) by the harness at the end
-            if !q.is_empty() && !self.rx_alive[c] {
+            // a live receiver is dropped (and drained) by the harness at the end; a forgotten one
+            // never drains
+            if !q.is_empty() && self.rx_forgotten[c] {
                 l.insert("Messages".to_string());
             }
         }
